@@ -66,10 +66,10 @@ def native_violations(line, platform):
     return out
 
 
-def build(lines, platform):
+def build(lines, platform, group_by=""):
     import cisco_acl
     head = "ip access-list extended A1" if platform == "ios" else "ip access-list A1"
-    acl = cisco_acl.Acl("\n".join([head] + lines), platform=platform)
+    acl = cisco_acl.Acl("\n".join([head] + lines), platform=platform, group_by=group_by)
     for o in acl.items:
         if isinstance(o, cisco_acl.Ace):
             for addr in (o.srcaddr, o.dstaddr):
@@ -85,22 +85,38 @@ def rules(text, platform):
 
 def check_acl(arg):
     import cisco_acl
-    lines, src, switches = arg
+    lines, src, switches = arg[:3]
+    group_by = arg[3] if len(arg) > 3 else ""
     dst = OTHER[src]
-    inputs = dict(lines=list(lines), source=src, target=dst)
+    inputs = dict(lines=list(lines), source=src, target=dst, group_by=group_by)
     fails = []
 
     def bad(kind, what):
         fails.append(dict(key=f"bounded/Acl.platform:{kind}", what=what, inputs=inputs,
                           cmd=("import sys; sys.path.insert(0, 'props'); import C02\n"
                                f"fails, _ = C02.check_acl({arg!r})\nprint([f['what'] for f in fails]); sys.exit(1 if fails else 0)\n")))
-    acl = build(list(lines), src)
+    acl = build(list(lines), src, group_by)
+    if group_by:
+        # group members are attached after grouping: walk into the groups
+        for g in acl.items:
+            for o in getattr(g, "items", []):
+                if isinstance(o, cisco_acl.Ace):
+                    for addr in (o.srcaddr, o.dstaddr):
+                        if addr.addrgroup and not addr.items:
+                            addr.items = [cisco_acl.Address(m, platform=src) for m in sc.GROUPS[src][addr.addrgroup]]
     if switches[0]:
         acl.port_nr = True
     if switches[1]:
         acl.protocol_nr = True
     before_text = acl.line
-    members_before = [[(m.prefix) for m in a.items] for o in acl.items if isinstance(o, cisco_acl.Ace) for a in (o.srcaddr, o.dstaddr) if a.addrgroup]
+    def all_aces(acl_):
+        for o in acl_.items:
+            if isinstance(o, cisco_acl.Ace):
+                yield o
+            for x in getattr(o, "items", []) if isinstance(o, cisco_acl.AceGroup) else []:
+                if isinstance(x, cisco_acl.Ace):
+                    yield x
+    members_before = [[(m.prefix) for m in a.items] for o in all_aces(acl) for a in (o.srcaddr, o.dstaddr) if a.addrgroup]
     try:
         h0, r0 = rules(before_text, src)
     except cisco_ref.RefError as ex:
@@ -164,7 +180,7 @@ def check_acl(arg):
     else:
         if j != len(r1):
             bad("extra", f"extra rules after conversion: {after_text.splitlines()[1:]}")
-    members_after = [[(m.prefix) for m in a.items] for o in acl.items if isinstance(o, cisco_acl.Ace) for a in (o.srcaddr, o.dstaddr) if a.addrgroup]
+    members_after = [[(m.prefix) for m in a.items] for o in all_aces(acl) for a in (o.srcaddr, o.dstaddr) if a.addrgroup]
     if members_after != members_before and not any("eq" in l and len(l.split()) > 8 for l in lines):
         bad("members", f"address-group members changed: {members_before} -> {members_after}")
     # there . back . there == there
@@ -253,6 +269,12 @@ def main(chk):
         for _ in range(300 if chk.tier == "quick" else 3000):
             c = tuple(rnd.choice(pool) for _ in range(rnd.randint(2, 4)))
             cases.append((c, src, (rnd.random() < 0.5, rnd.random() < 0.5)))
+    # ACLs grouped by remark prefix (AceGroup objects inside the ACL)
+    for src in ("ios", "nxos"):
+        pool = [l for l in POOL[src] if "remark" not in l]
+        for a, b in itertools.product(pool, pool[::3]):
+            cases.append((("remark = H1", a, "remark = H2", b), src, (False, False), "="))
+            cases.append((("remark = H1", a, b, "remark = H2", b, a), src, (False, False), "="))
     res = pmap(check_acl, cases)
     viol = 0
     for fails, _ in res:
